@@ -6,6 +6,8 @@
 -/
 import GunYu.Proofs.SenderRun
 import GunYu.Proofs.TargetSeq
+import GunYu.Proofs.Parser
+import GunYu.Props.C01
 
 namespace GunYu.Props.C09
 open GunYu GunYu.Sender GunYu.Target
@@ -346,6 +348,67 @@ theorem source_txn_is_one_block (c : SCfg) (hc : c.txnMode = true)
     rw [dataB_append, dataB_append, dataB_append, dataB_cpPart, hmq, heq, dataB_cmds sb.queue,
       List.nil_append, List.append_nil, List.append_nil]
     exact hdata2
+
+/-- the sender's transaction status follows the brackets of a non-nested schedule -/
+theorem noNested_run (c : SCfg) (s : SState) (pre rest : List Ev) (hnd : NoDone pre)
+    (h : C01.NoNested (inT s.txn) (pre ++ rest)) :
+    C01.NoNested (inT (run c s pre).1.txn) rest := by
+  induction pre generalizing s with
+  | nil => simpa [run] using h
+  | cons ev pre' ih =>
+    have hne : ev ≠ .done := hnd ev (List.mem_cons_self ..)
+    have hrest : NoDone pre' := fun e he => hnd e (List.mem_cons_of_mem _ he)
+    simp only [run, hne, ↓reduceIte]
+    apply ih _ hrest
+    rw [(step_data c s ev).2]
+    cases ev with
+    | item it =>
+      simp only [List.cons_append, C01.NoNested] at h
+      simp only [fwd1]
+      by_cases hp : it.cmd = bPing
+      · have hpm : bPing ≠ bMulti := by decide
+        have hpe : bPing ≠ bExec := by decide
+        simp only [hp, ↓reduceIte, hpm, hpe] at h ⊢
+        exact h
+      · simp only [hp, ↓reduceIte]
+        rw [inT_txnStatus]
+        by_cases hm : it.cmd = bMulti
+        · simp only [hm, ↓reduceIte] at h ⊢; exact h.2
+        · simp only [hm, ↓reduceIte] at h ⊢
+          by_cases he : it.cmd = bExec
+          · simp only [he, ↓reduceIte] at h ⊢; exact h
+          · simp only [he, ↓reduceIte] at h ⊢; exact h
+    | batchTick => simpa [C01.NoNested, fwd1] using h
+    | keepaliveTick => simpa [C01.NoNested, fwd1] using h
+    | cpTick => simpa [C01.NoNested, fwd1] using h
+    | done => exact absurd rfl hne
+
+/-- **The same with a hypothesis on the schedule only**: if the brackets of the
+    whole schedule are not nested (Redis never propagates a nested MULTI; for the
+    parser's output this follows from the source stream: `C01.noNested_of_items`,
+    `parseAll_noNested`), every source transaction that forwards a command is one
+    target block. -/
+theorem source_txn_is_one_block_src (c : SCfg) (hc : c.txnMode = true)
+    (pre : List Ev) (m : Item) (body : List Ev) (e : Item)
+    (hndp : NoDone pre) (hndb : NoDone body)
+    (hnn : C01.NoNested false (pre ++ ([Ev.item m] ++ body ++ [Ev.item e])))
+    (hm : m.cmd = bMulti) (he : e.cmd = bExec)
+    (hbody : ∀ ev ∈ body, ∀ it, ev = .item it → it.cmd ≠ bExec)
+    (hne : fwd .begin_ body ≠ []) :
+    ∃ outPre s1 block extra,
+      (run c initS (pre ++ [Ev.item m] ++ body ++ [Ev.item e])).2 = outPre ++ block :: extra ∧
+      dataOut outPre = fwd .no pre ∧
+      block = [Req.multi] ++ s1.queue.map (fun i => Req.cmd i.cmd i.args i.offset) ++
+                cpPart c s1 (c.resume && decide (0 ≤ e.offset)) e.offset ++ [Req.exec] ∧
+      dataB block = fwd .begin_ body ∧
+      dataOut extra = [] := by
+  have h1 := noNested_run c initS pre ([Ev.item m] ++ body ++ [Ev.item e]) hndp (by simpa [initS, inT] using hnn)
+  simp only [List.singleton_append, List.cons_append, C01.NoNested, hm, ↓reduceIte] at h1
+  have hout : inT (run c initS pre).1.txn = false := h1.1
+  have hpre : (run c initS pre).1.txn = .no ∨ (run c initS pre).1.txn = .barrier ∨
+      (run c initS pre).1.txn = .commit := by
+    cases hx : (run c initS pre).1.txn <;> simp [hx, inT] at hout ⊢
+  exact source_txn_is_one_block c hc pre m body e hndp hndb hpre hm he hbody hne
 
 /-! Non-vacuity of `source_txn_is_one_block`: batch count 2 (smaller than the
     transaction), a batch tick and a keep-alive tick inside the transaction. -/
